@@ -2,10 +2,17 @@
 
 Real code: lena.variables.Variable / Compose / Combine (lena/variables/variable.py), applied through
 lena.core.Sequence and directly.
-Model: lean/LenaModel/Model/C14.lean, theorems lean/LenaModel/Props/C14.lean, driver lean/drivers/C14.lean.
+Model: lean/LenaModel/Model/C14.lean (values), Model/C14Tok.lean (object identities); theorems Props/C14.lean,
+Props/C14Tok.lean; driver lean/drivers/C14.lean.
 
-Case (JSON):
-  {"chain":[E..], "vals":[{"d":int,"c":P|null}..], "wild":bool}
+Cases (JSON), by "kind":
+  chain (default)  {"chain":[E..], "vals":[{"d":int,"c":P|null}..], "wild":bool}
+      Sequence(E..) and Compose(E..) applied twice to every value; model: seqCall / mkCompose+call, plus the
+      specification side (chainWFb, chainOKb, composeData, argsTypes, fold of UP, Leaf.ctx, leavesOKb)
+  attr             {"kind":"attr","expr":E,"ops":[{"get":s}|{"set":s,"v":P}|{"item":i}|{"call":value}|{"vcn":true}|{"vc":true}..]}
+      __getattr__, __setattr__, Combine.__getitem__ on one variable, in order
+  tok              {"kind":"tok","expr":E,"val":value,"reps":k}
+      the variable applied k times, each time to the previous result, with id() of every list/dict (token model)
   E = {"k":"var","name":P,"getter":{"tag":i}|"variable"|"notcallable","type":P,"kw":{key:P}}
     | {"k":"compose","args":[E..],"kw":{key:P}} | {"k":"combine","args":[E..],"kw":{key:P}} | {"k":"other"}
   P (a Python value) = int | str | {"l":[P..]} (list) | {"t":[P..]} (tuple) | {"d":{key:P}} (dict)
@@ -13,6 +20,8 @@ The getter fixture {"tag":i} is `lambda x: (i, x)`: the data of a result spells 
 which order.  `wild` marks cases outside the well-formedness hypotheses of the theorems (error branches, attribute
 names that clash with types, ...): they go through the correspondence with the model; of the oracle only the parts
 that need no hypothesis apply to them.
+Not modelled on purpose: lena/variables/functions.py (abs, Cm) — not part of the statement; both raise
+LenaAttributeError for their default call (they use the commented-out Variable.get); recorded as a C20-side judgement.
 """
 import copy
 import itertools
@@ -78,16 +87,21 @@ THEOREMS = [
 ]
 TRUSTED = [
     "Lean 4.33.0 kernel; axioms limited to propext, Classical.choice, Quot.sound (audited by #print axioms on every run)",
-    "hand transcription of Variable.__init__/__call__/_update_context, Compose.__init__, Combine.__init__ and "
-    "get_data_context into LenaModel/Model/C14.lean, validated by this correspondence check (var_contexts, outputs and "
-    "exception class/phase of Sequence(v1..vn) and Compose(v1..vn) on every generated case)",
-    "dictionaries as slot vectors over the key alphabet of the case (DESIGN.md section 2); copy.deepcopy is the identity on values",
+    "hand transcription of Variable.__init__/__call__/_update_context/__getattr__/__setattr__, Compose.__init__, "
+    "Combine.__init__/__getitem__ and get_data_context into LenaModel/Model/C14.lean, validated by this correspondence check "
+    "(var_contexts, outputs, attribute reads, exception class/phase of Sequence(v1..vn) and Compose(v1..vn) on every case)",
+    "the second transcription of __call__/_update_context with object identities (Model/C14Tok.lean): proved to erase to the "
+    "first one (callT_erase); its identities (which objects are written, which objects the result is made of) validated "
+    "against id() of the real objects on every tok case",
+    "dictionaries as slot vectors over the key alphabet of the case (DESIGN.md section 2); copy.deepcopy is the identity on "
+    "values and renames every mutable object (values without internal sharing)",
     "the getter fixture x -> (i, x) on both sides; JSON line protocol encoders (harness/props/c14.py, drivers/C14.lean)",
 ]
 ASSUMPTIONS = [
     "getters are total functions of the data (an exception of a user's getter is outside the statement)",
     "contexts hold ints, strings, lists, tuples and string-keyed dictionaries; a `type` is a string",
-    "in-place mutation of the value's context is observed by the harness (before/after snapshots), not by the pure model",
+    "in-place mutation is stated and proved in the token model (Props/C14Tok.lean) and checked on the real objects both by "
+    "snapshots (chain kind) and by id() graphs (tok kind)",
     "the model carries both versions of the condition in line 196 of variable.py (fx=true: `\"type\" in cvar or \"compose\" in "
     "cvar`, /repo since commit 0eafe05 = notes/C14_defect_1.patch; fx=false: `\"type\" in cvar`, the tree before it); the "
     "harness determines on one fixed input which of them the tree under test implements and asks the model for that one; "
@@ -97,15 +111,18 @@ ASSUMPTIONS = [
     "'compose'; LeavesOK for the distinct-types theorems) are evaluated by the driver (chainWFb) on every generated case and "
     "must hold for every case the harness classifies as well-formed (spec_wf)",
 ]
-RULE = ("exhaustive: chains of 1..3 leaf variables, each untyped / typed with a fresh type / typed with the shared type 'ta', "
-        "with and without an attribute, x 7 input values (bare, context without variable, untyped variable, typed variable, "
-        "composed variable, typed-then-untyped variable, composed variable whose type equals a chain type); Combine of 1..4 "
-        "leaves x typed/untyped pattern x name/type keyword, alone and between typed variables; seeded random chains of 1..5 "
-        "expressions (leaves, nested Compose/Combine to depth 2, random attributes with nested values; quick 1200, thorough 40000) "
-        "and 'wild' cases (quick 800, thorough 30000: reserved words as types and attribute names, non-list compose, non-dict "
-        "context.variable, bad getters, non-Variable arguments, empty Compose/Combine, getter/dim/type/name keywords). "
-        "Every value is applied twice. Non-trivial: a chain of >= 2 variables whose result has a compose list, or a Combine, "
-        "or an exception.")
+RULE = ("chain: exhaustive chains of 1..3 leaf variables, each untyped / typed with a fresh type / typed with the shared type "
+        "'ta', with and without an attribute, x 7 input values (bare, context without variable, untyped variable, typed "
+        "variable, composed variable, typed-then-untyped variable, composed variable whose type equals a chain type); Combine "
+        "of 1..4 leaves x typed/untyped pattern x name/type keyword, alone and between typed variables; Compose with keywords; "
+        "seeded random chains of 1..5 expressions (leaves, nested Compose/Combine to depth 2 below the chain, random attributes "
+        "with nested values; quick 700, thorough 40000) and 'wild' cases (quick 800, thorough 30000: reserved words as types "
+        "and attribute names, non-list compose, non-dict context.variable, bad getters, non-Variable arguments, empty "
+        "Compose/Combine, getter/dim/type/name keywords); every value applied twice. attr: every index -n-2..n+1 of Combine of "
+        "1..4 variables, every kind of attribute name on a leaf / Combine / Compose, random get/set/item/call sequences (quick "
+        "300, thorough 8000). tok: 6 variables x 7 input values x 3 successive applications with object identities, random "
+        "(quick 300, thorough 8000). Non-trivial: a chain of >= 2 variables whose result has a compose list, a Combine, an "
+        "exception; attr: a value or an exception; tok: an object changed in place.")
 CASE_TIMEOUT = 10
 
 RESERVED = ["name", "type", "compose", "variable", "dim", "combine", "getter"]
@@ -970,7 +987,7 @@ def gen_cases(ctx):
     yield from _attr_exhaustive()
     yield from _tok_exhaustive()
     g = _Gen(rng)
-    n_chain, n_wild, n_attr, n_tok = (1200, 800, 300, 300) if quick else (40000, 30000, 8000, 8000)
+    n_chain, n_wild, n_attr, n_tok = (700, 800, 300, 300) if quick else (40000, 30000, 8000, 8000)
     # interleaved, so that a prefix of the thorough stream is a sample of all parts
     total = n_chain + n_wild + n_attr + n_tok
     attr = _attr_cases(rng, n_attr)
@@ -1571,13 +1588,16 @@ def shrink(case):
 
 
 # ---- MANIFEST texts ------------------------------------------------------------------------
-LEVEL_TEXT = ("Lean 4 theorems about a transcribed model of Variable.__init__/__call__/_update_context, Compose.__init__ and "
-              "Combine.__init__, for all chains of variables (any length, any nesting of Compose/Combine, any attributes "
-              "within the stated well-formedness hypotheses) and all input values; the model is tied to /repo by a "
-              "correspondence check (var_contexts, outputs, exception class and phase for Sequence and Compose of every "
-              "generated chain) plus a direct oracle that evaluates the property's sentences on the real code.")
+LEVEL_TEXT = ("Lean 4 theorems about a transcribed model of Variable.__init__/__call__/_update_context/__getattr__/__setattr__, "
+              "Compose.__init__ and Combine.__init__/__getitem__, for all chains of variables (any length, expression trees of "
+              "any nesting depth of Compose/Combine by mutual induction, any attributes within the stated, executable "
+              "well-formedness hypotheses) and all input values, plus a token-level model of __call__ (which objects are "
+              "written, which objects the result is made of) proved to refine the value model; both are tied to /repo by a "
+              "correspondence check (var_contexts, outputs, attribute reads, exception class and phase, id() graphs; every "
+              "specification-side definition of the theorems is executed by the driver and compared) plus a direct oracle "
+              "that evaluates the property's sentences on the real code.")
 LEVEL_NOTE = ("Trusted: Lean kernel (+ propext, Classical.choice, Quot.sound), the hand transcription validated by the "
-              "correspondence run, dictionaries as slot vectors, the getter fixture, the JSON protocol. In-place mutation of "
-              "the value's context and of var_context is checked by snapshots in the harness, not in the pure model.")
+              "correspondence run, dictionaries as slot vectors, deepcopy as renaming of objects, the getter fixture, the JSON "
+              "protocol. lena/variables/functions.py (abs, Cm) is deliberately not modelled (not in the statement).")
 TECHNIQUE = "Lean 4 proof over hand-written model + correspondence check (exhaustive small chains + seeded random)"
 DESIGN_REF = "DESIGN.md section 3, C14"
